@@ -51,9 +51,11 @@ func HashNameToFwThread(name enc.Name) int {
 func HashNameToAllPrefixFwThreads(name enc.Name) []bool {
 	threads := make([]bool, len(Threads))
 
-	// Dispatch all management requests to thread 0
+	// Dispatch all management requests to thread 0 (every non-empty prefix of such a
+	// name is hashed to thread 0 by HashNameToFwThread; the empty prefix is not)
 	if len(name) > 0 && bytes.Equal((name)[0].Val, LOCALHOST) {
 		threads[0] = true
+		threads[HashNameToFwThread(enc.Name{})] = true
 		return threads
 	}
 
